@@ -127,7 +127,10 @@ def unit(item):
         tds = torch.cat([trees[i][1] for i in batch], 0)
         td_r = env.reset(tds.clone())
         nstart = int(env.get_num_starts(td_r))
-        for w in range(2, max(2, nstart) + 1):
+        # PDP documents that only pickups are forced for ANY number of starts (the rule wraps around): widths beyond the
+        # number of pickups, up to the number of customers, are run as well and judged for feasibility of every beam
+        extra_w = list(range(max(2, nstart) + 1, tds["locs"].shape[1] + 1)) if skey.partition(":")[0] == "pdp" and skey == "pdp" else []
+        for w in list(range(2, max(2, nstart) + 1)) + extra_w:
             for select_best, script in ((False, []), (True, []), (False, [2] * B), (True, [2] * B)):
                 td_r = env.reset(tds.clone())
                 seam = Seam(script)
@@ -154,7 +157,7 @@ def unit(item):
                     inst, td0, ev = trees[iid]
                     finals = set(ev)
                     starts = [starts_all[r + i * B] for i in range(w)]
-                    ref, tie = reference_beam(ev, starts, w)
+                    ref, tie = reference_beam(ev, starts, w) if w <= max(2, nstart) else ("feasibility_only", False)
                     case = dict(kind="beam", policy=pkey, spec=skey, wseed=wseed, batch=[dict(instance_id=i, instance=trees[i][0]) for i in batch], row=r, beam_width=w, select_best=select_best)
                     if ref is None:
                         p.add(infeasible_forced_starts=1)
@@ -167,6 +170,16 @@ def unit(item):
                         continue
                     if ref == "too_few":
                         p.add(too_few_candidates=1)
+                        continue
+                    if ref == "feasibility_only":
+                        rows_ = [r] if select_best else [r + i * B for i in range(w)]
+                        for row in rows_:
+                            acts = out["actions"][row].tolist()
+                            p.add(traces_validated_against_impl=1)
+                            if strip(acts, finals) is None:
+                                p.violation(sig(skey, "infeasible_beam", f"B={B}|width>starts"), case, f"{pkey} x {skey} {iid}: width {w} (more than the {nstart} pickups): returned beam {acts} is not a feasible complete sequence (forced starts {starts})")
+                                break
+                        p.case(f"{skey}|{iid}|{w}|{select_best}|{B}|{wseed}|feasibility")
                         continue
                     p.case(f"{skey}|{iid}|{w}|{select_best}|{B}|{wseed}")
                     ref_set = sorted(b for b, _ in ref)
